@@ -7,6 +7,7 @@ import (
 	"errors"
 	"fmt"
 	"io"
+	"math"
 	"os"
 	"os/exec"
 	"runtime"
@@ -31,7 +32,7 @@ import (
 const (
 	c02ChildEnv      = "VERIF_C02_CHILD"
 	c02AddrSpaceCap  = 4 << 30  // RLIMIT_AS of the worker
-	c02StackCap      = 64 << 20 // debug.SetMaxStack in the worker
+	c02StackCap      = 32 << 20 // debug.SetMaxStack in the worker
 	c02HeapWatchdog  = 1536 << 20
 	c02StatusOK      = 0
 	c02StatusErr     = 1
@@ -40,13 +41,15 @@ const (
 )
 
 type c02Result struct {
-	Status   int    // c02Status*, or -1 worker died, -2 timeout
-	Msg      string // error text / panic value + site / stderr tail of a dead worker
-	Site     string // panic site (function) for keys
-	Alloc    uint64 // bytes allocated during the call (cumulative)
-	Peak     uint64 // peak growth of the bytes held by heap objects (peak mode only)
-	Elapsed  time.Duration
-	Restarts int
+	Status    int           // c02Status*, or -1 worker died, -2 timeout
+	Msg       string        // error text / panic value + site / stderr tail of a dead worker
+	Site      string        // panic site (function) for keys
+	Alloc     uint64        // bytes allocated during the call (cumulative)
+	Peak      uint64        // peak growth of the bytes held by heap objects, sampled (peak mode only)
+	MaxSingle uint64        // largest per-site average allocation size during the call, from the heap profile (peak mode only)
+	CPU       time.Duration // process CPU time (user+system) consumed by the worker during the call
+	Elapsed   time.Duration
+	Restarts  int
 	// Amplified: over the allocation budget, but shown to follow the consumed input
 	Amplified bool
 	// Churn: cumulative allocation over the budget, peak heap growth within it
@@ -80,6 +83,7 @@ func c02ChildMain() {
 	}()
 
 	allocS := []metrics.Sample{{Name: "/gc/heap/allocs:bytes"}}
+	var sentinels int64 // sentinel allocations published in the heap profile so far
 	hdr := make([]byte, 8)
 	for {
 		if _, err := io.ReadFull(in, hdr); err != nil {
@@ -95,14 +99,16 @@ func c02ChildMain() {
 			os.Exit(0)
 		}
 		status, msg, site := c02StatusBadCall, "no such entry", ""
-		var alloc, peak uint64
-		var el time.Duration
+		var alloc, peak, maxSingle uint64
+		var el, cpu time.Duration
+		var prof0 map[[32]uintptr][2]int64
+		profOK := false
 		if entry < len(c02Entries) && variant < c02Entries[entry].Variants {
 			var stop, stopped chan struct{}
 			if peakMode {
 				// peak heap growth: collect first, then sample the bytes held by heap
 				// objects (live + not yet swept) while the call runs
-				runtime.GC()
+				prof0, sentinels, profOK = c02MemProfile(sentinels)
 				ps := []metrics.Sample{{Name: "/memory/classes/heap/objects:bytes"}}
 				metrics.Read(ps)
 				base := ps[0].Value.Uint64()
@@ -125,20 +131,38 @@ func c02ChildMain() {
 			}
 			metrics.Read(allocS)
 			a0 := allocS[0].Value.Uint64()
-			t0 := time.Now()
+			t0, c0 := time.Now(), c02ProcessCPU()
 			status, msg, site = c02RunOne(c02Entries[entry], variant, data)
-			el = time.Since(t0)
+			el, cpu = time.Since(t0), c02ProcessCPU()-c0
 			metrics.Read(allocS)
 			alloc = allocS[0].Value.Uint64() - a0
 			if peakMode {
 				close(stop)
 				<-stopped
+				// Deterministic part of the measurement (no sampling race): the largest
+				// average allocation size of any allocation site during the call, from the
+				// heap profile. Allocations above a few MiB are recorded with probability
+				// 1 - e^(-size/512KiB), i.e. always; a site that made one claimed-length
+				// allocation shows exactly its size.
+				prof1, n1, ok1 := c02MemProfile(sentinels)
+				sentinels = n1
+				for k, v := range prof1 {
+					b, o := v[0]-prof0[k][0], v[1]-prof0[k][1]
+					if o > 0 && b > 0 && b/o != c02SentinelSize && uint64(b/o) > maxSingle {
+						maxSingle = uint64(b / o)
+					}
+				}
+				if !profOK || !ok1 {
+					maxSingle = math.MaxUint64 // "could not be measured"
+				}
 			}
 		}
 		if len(msg) > 4000 {
 			msg = msg[:4000]
 		}
-		var resp [33]byte
+		var resp [49]byte
+		binary.BigEndian.PutUint64(resp[33:], maxSingle)
+		binary.BigEndian.PutUint64(resp[41:], uint64(cpu))
 		resp[0] = byte(status)
 		binary.BigEndian.PutUint64(resp[1:], alloc)
 		binary.BigEndian.PutUint64(resp[9:], uint64(el))
@@ -192,6 +216,70 @@ func panicSite(stack []byte) string {
 	return "unknown"
 }
 
+// c02ProcessCPU is the CPU time (user+system) the worker process has consumed.
+func c02ProcessCPU() time.Duration {
+	var ru syscall.Rusage
+	if syscall.Getrusage(syscall.RUSAGE_SELF, &ru) != nil {
+		return 0
+	}
+	return time.Duration(ru.Utime.Nano() + ru.Stime.Nano())
+}
+
+const c02SentinelSize = 4<<20 + 8192
+
+var c02SentinelSink []byte
+
+//go:noinline
+func c02Sentinel() {
+	c02SentinelSink = make([]byte, c02SentinelSize)
+	c02SentinelSink[0] = 1
+	c02SentinelSink = nil
+}
+
+// c02MemProfile returns cumulative (bytes, objects) allocated per allocation
+// site, complete up to the moment of the call. The runtime publishes profile
+// data only when a GC cycle finishes sweeping without another cycle racing it,
+// so automatic collection is switched off while flushing and a sentinel
+// allocation made on entry must have become visible before the snapshot is
+// accepted (everything allocated before the sentinel is published with it or
+// earlier). ok=false: the sentinel never showed up.
+func c02MemProfile(prevSentinels int64) (prof map[[32]uintptr][2]int64, sentinels int64, ok bool) {
+	oldPct := debug.SetGCPercent(-1)
+	oldLim := debug.SetMemoryLimit(math.MaxInt64)
+	defer func() {
+		debug.SetGCPercent(oldPct)
+		debug.SetMemoryLimit(oldLim)
+	}()
+	c02Sentinel()
+	for attempt := 0; attempt < 12; attempt++ {
+		runtime.GC()
+		runtime.GC()
+		n, _ := runtime.MemProfile(nil, true)
+		var recs []runtime.MemProfileRecord
+		for {
+			recs = make([]runtime.MemProfileRecord, n+64)
+			var fit bool
+			if n, fit = runtime.MemProfile(recs, true); fit {
+				recs = recs[:n]
+				break
+			}
+		}
+		prof = make(map[[32]uintptr][2]int64, len(recs))
+		sentinels = 0
+		for _, r := range recs {
+			v := prof[r.Stack0]
+			prof[r.Stack0] = [2]int64{v[0] + r.AllocBytes, v[1] + r.AllocObjects}
+			if r.AllocObjects > 0 && r.AllocBytes == r.AllocObjects*c02SentinelSize {
+				sentinels += r.AllocObjects
+			}
+		}
+		if sentinels > prevSentinels {
+			return prof, sentinels, true
+		}
+	}
+	return prof, sentinels, false
+}
+
 func c02RunOne(e *c02Entry, v int, data []byte) (status int, msg, site string) {
 	defer func() {
 		if p := recover(); p != nil {
@@ -240,6 +328,7 @@ func (t *tailBuffer) String() string {
 }
 
 type c02Runner struct {
+	WallCap  time.Duration // overrides the wall-clock cap of a call (self-test only)
 	w        *c02Worker
 	Restarts int
 	Spawned  int
@@ -296,7 +385,7 @@ func (r *c02Runner) callPeak(entry, variant int, data []byte, wait time.Duration
 	return r.call(entry, variant|0x8000, data, wait)
 }
 
-// call runs one input in the worker, waiting at most `wait`.
+// call runs one input in the worker; `wait` bounds the CPU time the call may consume.
 func (r *c02Runner) call(entry, variant int, data []byte, wait time.Duration) c02Result {
 	if r.w == nil {
 		if err := r.start(); err != nil {
@@ -318,7 +407,7 @@ func (r *c02Runner) call(entry, variant int, data []byte, wait time.Duration) c0
 			ch <- rd{err: err}
 			return
 		}
-		var resp [33]byte
+		var resp [49]byte
 		if _, err := io.ReadFull(w.resp, resp[:]); err != nil {
 			ch <- rd{err: err}
 			return
@@ -334,30 +423,72 @@ func (r *c02Runner) call(entry, variant int, data []byte, wait time.Duration) c0
 			Status: int(resp[0]), Alloc: binary.BigEndian.Uint64(resp[1:]),
 			Elapsed: time.Duration(binary.BigEndian.Uint64(resp[9:])),
 			Msg:     string(buf[:ml]), Site: string(buf[ml:]),
-			Peak: binary.BigEndian.Uint64(resp[25:]),
+			Peak:      binary.BigEndian.Uint64(resp[25:]),
+			MaxSingle: binary.BigEndian.Uint64(resp[33:]),
+			CPU:       time.Duration(binary.BigEndian.Uint64(resp[41:])),
 		}}
 	}()
-	timer := time.NewTimer(wait)
-	defer timer.Stop()
-	select {
-	case x := <-ch:
-		if x.err == nil {
-			return x.res
-		}
-		// worker died: collect what it said
-		select {
-		case <-w.done:
-		case <-time.After(5 * time.Second):
-		}
-		tail := w.stderr.String()
-		r.kill()
-		r.Restarts++
-		return c02Result{Status: -1, Msg: tail}
-	case <-timer.C:
-		r.kill() // unblocks the reader goroutine through closed pipes
-		r.Restarts++
-		return c02Result{Status: -2, Msg: fmt.Sprintf("no answer within %s", wait), Elapsed: wait}
+	// The bound is on CPU time, not wall time: on a loaded machine a call may wait
+	// arbitrarily long for a processor, which says nothing about the decoder. The
+	// parent reads the worker's consumed CPU time from /proc and gives up when the
+	// call has burnt more than `wait` of CPU, or when it has been blocked without
+	// using CPU for wallCap (a decoder stuck on a lock or channel).
+	cpu0 := procCPU(w.cmd.Process.Pid)
+	start := time.Now()
+	wallCap := 6 * wait
+	if wallCap < 90*time.Second {
+		wallCap = 90 * time.Second
 	}
+	if r.WallCap > 0 {
+		wallCap = r.WallCap
+	}
+	tick := time.NewTicker(100 * time.Millisecond)
+	defer tick.Stop()
+	for {
+		select {
+		case x := <-ch:
+			if x.err == nil {
+				return x.res
+			}
+			// worker died: collect what it said
+			select {
+			case <-w.done:
+			case <-time.After(5 * time.Second):
+			}
+			tail := w.stderr.String()
+			r.kill()
+			r.Restarts++
+			return c02Result{Status: -1, Msg: tail}
+		case <-tick.C:
+			used := procCPU(w.cmd.Process.Pid) - cpu0
+			if used > wait || time.Since(start) > wallCap {
+				r.kill() // unblocks the reader goroutine through closed pipes
+				r.Restarts++
+				return c02Result{Status: -2, Msg: fmt.Sprintf("no answer after %s of CPU time and %s of wall time (limits %s CPU, %s wall)", used.Round(time.Millisecond), time.Since(start).Round(time.Millisecond), wait, wallCap), Elapsed: time.Since(start), CPU: used}
+			}
+		}
+	}
+}
+
+// procCPU reads utime+stime of a process from /proc (clock ticks of 10 ms).
+func procCPU(pid int) time.Duration {
+	b, err := os.ReadFile(fmt.Sprintf("/proc/%d/stat", pid))
+	if err != nil {
+		return 0
+	}
+	s := string(b)
+	i := strings.LastIndex(s, ")") // comm may contain spaces
+	if i < 0 {
+		return 0
+	}
+	f := strings.Fields(s[i+1:])
+	if len(f) < 13 {
+		return 0
+	}
+	var ut, st int64
+	fmt.Sscan(f[11], &ut)
+	fmt.Sscan(f[12], &st)
+	return time.Duration(ut+st) * 10 * time.Millisecond
 }
 
 // crashSummary extracts the fatal line of a dead worker's output.
